@@ -599,7 +599,7 @@ def run(ctx):
         cases = [ctx.replay["case"]] if "case" in ctx.replay else [d["case"] for d in ctx.replay.get("disagreements", [])]
     else:
         cases = corpus()
-        nu, ne = (400, 110) if ctx.quick() else (3000, 700)
+        nu, ne = (300, 90) if ctx.quick() else (3000, 700)
         cases += [gen_unit(ctx.rng, 0) for _ in range(nu)]
         cases += [gen_e2e(ctx.rng, 0, force=k) for k in PRE_KINDS + ["ref_data", None, None]]
         cases += [gen_e2e(ctx.rng, 0) for _ in range(ne)]
